@@ -5,6 +5,7 @@
    the real analyzers on the typed tree of thousands of programs on every run. *)
 From Coq Require Import List NArith.
 From PV Require Import Base.Common Model.Mutability Proofs.MutabilityProofs.
+From PV Require Model.CallFrame Proofs.CallFrameProofs.
 Import ListNotations.
 
 (* An assignment is accepted iff its target is writable: the base is a mutable
@@ -129,6 +130,76 @@ Theorem C08_callee_can_only_write_through_pointers : forall v ps b v',
          (body_sites (declare_params v ps) b).
 Proof. exact callee_can_only_write_through_pointers. Qed.
 
+(* ---- the run-time consequence, on memory (Model/CallFrame.v, Proofs/CallFrameProofs.v) -----------------
+   One activation of a function as the generator lowers it: parameters by value (SSA values), views
+   ({ptr,len} or a pointer INTO THE CALLER'S storage), pointers, slice pointers, local variables and
+   constants; a body of assignments whose verdict is literally Model/Mutability.v's
+   (C08_frame_verdict_is_the_gates) and whose execution is MemLower's (the location a reference denotes,
+   a store into flat memory with LLVM's layout).  [frame_safe m A K f]: the callee's variables lie in A,
+   the targets of its POINTER parameters lie in A, the viewed objects and constants need not, and every
+   pointer stored in anything the callee can see points into A (K: which cells hold pointers).
+   Then an accepted body changes nothing outside A, whatever the aliasing. *)
+Theorem C08_callee_writes_confined : forall body m A K f m',
+  CallFrameProofs.frame_safe m A K f ->
+  CallFrame.accepted_body f body = true ->
+  CallFrame.exec_body m f body = Some m' ->
+  (forall x, ~ A x -> m' x = m x) /\ CallFrameProofs.frame_safe m' A K f.
+Proof. exact CallFrameProofs.callee_writes_confined. Qed.
+
+(* an object passed as a view (or any object outside A: a by-value argument has no storage at all) is
+   bit for bit what it was *)
+Theorem C08_view_object_unchanged : forall body m A K f m' (Obj : BinNums.Z -> Prop),
+  CallFrameProofs.frame_safe m A K f -> CallFrame.accepted_body f body = true ->
+  CallFrame.exec_body m f body = Some m' ->
+  (forall x, Obj x -> ~ A x) ->
+  forall x, Obj x -> m' x = m x.
+Proof. exact CallFrameProofs.view_object_unchanged. Qed.
+
+(* With nothing but pointer-free objects in sight no hypothesis about memory is needed: only the callee's
+   variables and the targets of its pointer parameters (&T, &[]T) can change ... *)
+Theorem C08_first_order_callee_confined : forall f body m m',
+  (forall k b, nth_error f k = Some b -> CallFrameProofs.flat_binding b) ->
+  CallFrame.accepted_body f body = true ->
+  CallFrame.exec_body m f body = Some m' ->
+  forall x, CallFrame.in_ranges x (CallFrameProofs.flat_allowed f) = false -> m' x = m x.
+Proof. exact CallFrameProofs.flat_frame_confined. Qed.
+
+(* ... and without a pointer parameter a call changes nothing of its caller: "a call can change a variable
+   of its caller only if the caller wrote `&`" for first-order data *)
+Theorem C08_no_pointer_parameter_no_effect : forall f body m m',
+  (forall k b, nth_error f k = Some b -> CallFrameProofs.flat_binding b) ->
+  Forall (fun b => CallFrame.b_kind b = CallFrame.KParam -> CallFrame.param_class (CallFrame.b_ty b) <> CallFrame.CPointer) f ->
+  CallFrame.accepted_body f body = true ->
+  CallFrame.exec_body m f body = Some m' ->
+  forall x, CallFrame.in_ranges x (CallFrame.own_ranges f) = false -> m' x = m x.
+Proof. exact CallFrameProofs.no_pointer_parameter_no_effect. Qed.
+
+Theorem C08_frame_verdict_is_the_gates : forall f body mb,
+  CallFrameProofs.to_mut_body f body = Some mb ->
+  Mutability.mut_stmts (CallFrame.frame_menv f) mb = (CallFrame.frame_menv f, CallFrame.body_codes f body).
+Proof. exact CallFrameProofs.body_codes_literal. Qed.
+
+(* The sentence as worded is FALSE of the code beyond first-order data (listed finding D74): a pointer
+   stored inside a structure or an array that is passed as a VIEW can be written through - the gate stops
+   asking at the first Autoderef - so `poke(h)` changes the caller's x although no `&` stands on that
+   argument and no parameter has pointer type. *)
+Theorem C08_pointer_inside_view_refuted :
+  exists f inits body probe ch out_strict,
+    Forall (fun b => CallFrame.param_class (CallFrame.b_ty b) <> CallFrame.CPointer) f /\
+    CallFrame.accepted_body f body = true /\
+    CallFrame.run_frame_case f inits body probe false = CallFrame.CaseRan ch [] out_strict /\
+    out_strict <> [].
+Proof. exact CallFrameProofs.pointer_params_only_refuted. Qed.
+
+(* and the typing of memory (K) is needed: an integer and a pointer at one address - which only casts in
+   the caller can build - escape even the wider region *)
+Theorem C08_untyped_memory_refuted :
+  exists f inits body probe ch out_allowed,
+    CallFrame.accepted_body f body = true /\
+    CallFrame.run_frame_case f inits body probe false = CallFrame.CaseRan ch out_allowed out_allowed /\
+    out_allowed <> [].
+Proof. exact CallFrameProofs.untyped_memory_refuted. Qed.
+
 Print Assumptions C08_assignment_iff.
 Print Assumptions C08_assignment_complete.
 Print Assumptions C08_params_are_immutable.
@@ -145,3 +216,10 @@ Print Assumptions C08_pointer_parameter_needs_address.
 Print Assumptions C08_function_sound.
 Print Assumptions C08_strict_agrees.
 Print Assumptions C08_callee_can_only_write_through_pointers.
+Print Assumptions C08_callee_writes_confined.
+Print Assumptions C08_view_object_unchanged.
+Print Assumptions C08_first_order_callee_confined.
+Print Assumptions C08_no_pointer_parameter_no_effect.
+Print Assumptions C08_frame_verdict_is_the_gates.
+Print Assumptions C08_pointer_inside_view_refuted.
+Print Assumptions C08_untyped_memory_refuted.
